@@ -30,8 +30,8 @@ type c02Node struct {
 }
 
 type c02Dirfd struct {
-	Enc string // cwd-100 | cwd-zext | cwd-garbage | fd | fd-garbage
-	Slot int   // dirfd slot (fd number 100+Slot) for fd encodings
+	Enc  string // cwd-100 | cwd-zext | cwd-garbage | fd | fd-garbage
+	Slot int    // dirfd slot (fd number 100+Slot) for fd encodings
 }
 
 type c02Op struct {
